@@ -63,6 +63,8 @@ def build_transform(t):
 def build_base(spec):
     cls = FAMS[spec["fam"]]
     params = [arr(p, spec["scalar"]) for p in spec["params"]]
+    if spec.get("shape"):
+        params = [np.reshape(p, spec["shape"]) for p in params]
     return cls(*params, log_norm=unhex(spec["log_norm"]), id_=spec["id"],
                lower_limit=unhex(spec["lo"]), upper_limit=unhex(spec["hi"]))
 
@@ -102,7 +104,7 @@ def describe_transform(t):
 
 def cols(params):
     """tuple of k parameters (scalars or arrays of length n) -> n rows of k hex strings"""
-    ps = [np.atleast_1d(np.asarray(p, dtype=float)) for p in params]
+    ps = [np.atleast_1d(np.asarray(p, dtype=float)).ravel() for p in params]
     n = max(len(p) for p in ps)
     return [[hexf(p[i] if len(p) > 1 or n == 1 else p[0]) for p in ps] for i in range(n)]
 
@@ -593,7 +595,11 @@ def run_hist(c):
 
     observe()
     for i, vspec in c["steps"]:
-        m[i] = build_base(vspec)
+        if isinstance(i, list):
+            idx = slice(i[1], i[2]) if i[0] == "slice" else np.array(i[1:], dtype=int)
+        else:
+            idx = i
+        m[idx] = build_base(vspec)
         observe()
     return {"stages": stages}
 
